@@ -1,0 +1,32 @@
+//go:build verif
+
+package verifhook
+
+import "sync"
+
+var (
+	refMu   sync.Mutex
+	refs    = map[any]int64{}
+	refNext int64
+)
+
+// Ref returns a small number (1, 2, ...) that identifies the pointer p for the lifetime of
+// the process (or until ResetRefs); the same pointer always gets the same number.
+func Ref(p any) int64 {
+	refMu.Lock()
+	defer refMu.Unlock()
+	if r, ok := refs[p]; ok {
+		return r
+	}
+	refNext++
+	refs[p] = refNext
+	return refNext
+}
+
+// ResetRefs forgets all pointer numbers (harness use, between cases).
+func ResetRefs() {
+	refMu.Lock()
+	refs = map[any]int64{}
+	refNext = 0
+	refMu.Unlock()
+}
